@@ -64,7 +64,7 @@ pub fn check(ctx: &Ctx, hp: &HistProp, acc: &Accum) -> i32 {
     let cases = ctx.by(hp.cases_quick, hp.cases_thorough);
     let cfg = hp.cfg.clone();
     let strat = move || sym::hist_strategy(&cfg);
-    let found = explore(ctx, acc, "l1-histories", &strat, cases, ctx.workers, |c: &HistCase| run_case(hp, c));
+    let found = explore(ctx, acc, "l1-histories", "hist", &strat, cases, ctx.workers, |c: &HistCase| run_case(hp, c));
     if let Some(f) = found {
         let case = serde_json::to_value(&f.case).unwrap();
         report_violation(ctx, "hist", &case, &f.fail);
